@@ -317,7 +317,8 @@ struct Driver {
 
   // ------------------------------------------------------------------------------------------------ construction
   // how: 0 default constructor, 1 reserving constructor, 2 constructor from boundaries (only when `simplicial`)
-  void build(const Model& md, int how) {
+  void build(const Model& md, int how, int reserve = -1) {
+    if (reserve < 0) reserve = md.n() + 2;
     std::function<bool(U, U)> bc = [this](U a, U b) { return cmp_birth(a, b); };
     std::function<bool(U, U)> dc = [this](U a, U b) { return cmp_death(a, b); };
     if (how == 2) {
@@ -341,12 +342,12 @@ struct Driver {
       pmap = size_t(md.n());
       return;
     }
-    if (how == 1) pmap = size_t(md.n() + 2);
+    if (how == 1) pmap = size_t(reserve);
     if (how == 1) {
       if constexpr (need_cmp)
-        m.reset(new M(U(md.n() + 2), bc, dc));
+        m.reset(new M(U(reserve), bc, dc));
       else
-        m.reset(new M(U(md.n() + 2)));
+        m.reset(new M(U(reserve)));
     } else {
       if constexpr (need_cmp)
         m.reset(new M(bc, dc));
@@ -906,6 +907,12 @@ void run(vf::Tape& t, vf::Ctx& ctx) {
   }
   ctx.desc << "ids: " << (explicit_ids ? "explicit" : "default") << "\n";
   if (how == 2 && (!simplicial || explicit_ids)) how = 0;
+  int reserve = -1;
+  if (D::ru && !D::mapc && how != 2 && ctx.excluded("C06-ru-pivot-map-size")) {
+    // known finding: only the reserving constructor makes the pivot dictionary large enough for swaps everywhere
+    how = 1;
+    reserve = kMaxCells + 2;
+  }
   ctx.desc << "build: " << (how == 2 ? "constructor from boundaries" : (how == 1 ? "reserve + insert_boundary" : "insert_boundary"))
            << "\n";
   for (int p = 0; p < md.n(); ++p) {
@@ -918,7 +925,7 @@ void run(vf::Tape& t, vf::Ctx& ctx) {
   std::unique_ptr<D> A(new D(ctx, "A", explicit_ids)), F;
   A->rows_are_positions = rows_pos;
   if (A->need_cmp) A->cmp_documented = !ctx.excluded("C06-chain-comparator-index");
-  A->build(md, how);
+  A->build(md, how, reserve);
   RefState rs = reference(md);
   A->check_full(md, rs, "after construction");
 
@@ -1199,6 +1206,11 @@ void run(vf::Tape& t, vf::Ctx& ctx) {
       for (auto& c : md.f)
         if (!((c.bd.empty() && c.dim == 0) || (!c.bd.empty() && int(c.bd.size()) == c.dim + 1))) simp = false;
       if (how2 == 2 && !simp) how2 = 0;
+      int reserve2 = -1;
+      if (D::ru && !D::mapc && how2 != 2 && ctx.excluded("C06-ru-pivot-map-size")) {
+        how2 = 1;
+        reserve2 = kMaxCells + 2;
+      }
       ctx.desc << steps << ": fresh matrix F on the current filtration ("
                << (how2 == 2 ? "constructor from boundaries" : (how2 == 1 ? "reserve + insert_boundary" : "insert_boundary"))
                << ")\n";
@@ -1206,7 +1218,7 @@ void run(vf::Tape& t, vf::Ctx& ctx) {
       F.reset(new D(ctx, "F", false));
       F->rows_are_positions = rows_pos;
       if (F->need_cmp) F->cmp_documented = !ctx.excluded("C06-chain-comparator-index");
-      F->build(md, how2);
+      F->build(md, how2, reserve2);
       F->check_full(md, rs, when.str() + " (fresh)");
       ctx.hit("fresh");
       full = true;
